@@ -1,8 +1,9 @@
 """Specification of SPLIT (C07): the pieces of a pattern between top-level unescaped `|` - not those inside bracket
 expressions or extended groups.  Written from the statement and the documented bracket/group grammar, not from WcSplit.
 
-well_formed(p, ext, pathname) says whether every bracket expression and every group in p is terminated (then the
-statement fixes the pieces); for other strings only losslessness ('|'.join(pieces) == p) is demanded."""
+Unterminated bracket expressions and groups are literal text (C10): `[` alone is an ordinary character, an opener `@(` without
+its `)` is ordinary text and what follows it is scanned afresh.  A trailing lone backslash stays Malformed (only losslessness
+('|'.join(pieces) == p) is demanded there)."""
 POSIX_NAMES = ('alnum', 'alpha', 'ascii', 'blank', 'cntrl', 'digit', 'graph', 'lower', 'print', 'punct', 'space', 'upper', 'word', 'xdigit')
 
 
@@ -51,10 +52,18 @@ def _scan(p, i, ext, pathname, in_group):
             i += 2
             continue
         if c == '[':
-            i = _bracket_end(p, i, pathname)
+            try:
+                i = _bracket_end(p, i, pathname)
+            except Malformed:
+                i += 1          # an unterminated bracket expression is the literal character `[` (C10); scanning goes on behind it
             continue
         if ext and c in '?*+@!' and p[i + 1:i + 2] == '(':
-            _, i = _scan(p, i + 2, ext, pathname, True)
+            try:
+                _, i = _scan(p, i + 2, ext, pathname, True)
+            except Malformed:
+                if in_group:
+                    raise       # the enclosing group cannot be terminated either
+                i += 1          # an unterminated group is literal text (C10): its opener is an ordinary character, what follows is scanned afresh
             continue
         if in_group and c == ')':
             return points, i + 1
